@@ -17,7 +17,7 @@ LEVEL_TEXT = "seeded search over histories, configurations, schedules and fault 
 LEVEL_NOTE = ("real: allmydata.client._Client, nodemaker, mutable.filenode/publish/retrieve/servermap/layout, storage server; stub: reactor, foolscap wire "
               "(SimRef), os.urandom, RSA key generation (committed pool of 2048-bit keys), CPU thread pool (simulated: synchronous, or completion as a reactor event after a drawn delay); ground truth is read from the servers' disks")
 REAL = ["allmydata.client._Client", "nodemaker", "mutable.filenode", "mutable.publish", "mutable.retrieve", "mutable.servermap", "mutable.layout", "storage.server", "storage.mutable"]
-STUB = ["reactor/time", "foolscap transport (SimNet/SimRef)", "os.urandom", "RSA keygen (pool)", "cputhreadpool (SimThreadPool: in a third of the runs the result is delivered by a reactor event after a drawn delay, otherwise synchronously)"]
+STUB = ["reactor/time", "foolscap transport (SimNet/SimRef; per-connection FIFO; in half of the runs arrivals are batched: several messages handed over before queued zero-delay turns run)", "os.urandom", "RSA keygen (pool)", "cputhreadpool (SimThreadPool: in a third of the runs the result is delivered by a reactor event after a drawn delay, otherwise synchronously)"]
 ASSUMPTIONS = ["per-connection FIFO delivery (TCP)", "RSA-PSS signatures are randomised (OpenSSL RNG) and excluded from digests"]
 
 
